@@ -156,7 +156,9 @@ func (fr *Frame) callInPkg(callee *ssa.Function, args []Val, st *State, reach st
 		sub.paramVs[p] = args[i]
 		sub.params[p.Name()] = args[i]
 	}
+	c.tick(st, "1")
 	sub.run(st, reach)
+	fr.curState = st
 	// merge returns
 	var ins []predIn
 	for _, r := range sub.rets {
@@ -274,6 +276,15 @@ func (fr *Frame) callByContract(callee *ssa.Function, fc *FuncContract, args []V
 	res := fr.freshResults(callee)
 	post := fr.calleeEnv(callee, args, st, pre)
 	post.results = res
+	{
+		delta := c.declare(c.fresh("dcost"), "Int")
+		c.assume("(<= 0 " + delta + ")")
+		if fc.Cost != nil {
+			bound := fr.evalExpr(fc.Cost, post).C[0]
+			c.assume(sImp(reach, "(<= "+delta+" "+bound+")"))
+		}
+		c.tick(st, delta)
+	}
 	for _, en := range fc.Ensures {
 		if strings.Contains(en.Text, "local(") {
 			continue // about the callee's own locals: proved there, not visible to callers
@@ -358,6 +369,7 @@ func (fr *Frame) builtin(b *ssa.Builtin, x *ssa.Call, st *State, reach string) V
 		// element it is a one-element slice built from a local array.
 		if sl.K == KSlice && el.K == KSlice {
 			c.usedAssumed["append (value semantics on a local slice)"] = true
+			c.tick(st, "1")
 			n := sl.C[len(sl.C)-1]
 			m := el.C[len(el.C)-1]
 			nv := fr.freshVal(sl.T, "app")
@@ -430,6 +442,17 @@ func (fr *Frame) external(callee *ssa.Function, x *ssa.Call, args []Val, st *Sta
 	switch full {
 	case "strings.IndexByte", "bytes.IndexByte":
 		c.usedAssumed[full+": first occurrence or -1"] = true
+		defer func() {
+			// cost: the distance scanned
+			rv := fr.lastIdx
+			var L string
+			if args[0].K == KStr {
+				L = args[0].C[2]
+			} else {
+				L = args[0].C[1]
+			}
+			c.tick(st, "(ite (= "+rv+" (- 1)) (+ "+L+" 1) (+ "+rv+" 2))")
+		}()
 		s := args[0]
 		ch := args[1].C[0]
 		var A, O, L string
@@ -443,10 +466,12 @@ func (fr *Frame) external(callee *ssa.Function, x *ssa.Call, args []Val, st *Sta
 		found := sAnd("(<= 0 "+r+")", "(< "+r+" "+L+")", sEq(sSel(A, lAdd(O, r)), ch),
 			qAbs(c, A, O, lAdd(O, r), func(j string) string { return sNot(sEq(sSel(A, j), ch)) }))
 		c.assume(sOr(notFound, found))
+		fr.lastIdx = r
 		return mk(x.Type(), r)
 	case "strings.Index":
 		c.usedAssumed[full+": first occurrence of the substring or -1"] = true
 		s, p := args[0], args[1]
+		c.tick(st, lAdd(lAdd(s.C[2], p.C[2]), "1"))
 		r := c.declare(c.fresh("idx"), "Int")
 		// quantify over the absolute start index j of a candidate match (pattern: (select A j))
 		absMatch := func(j string) string { return fr.matchAbs(s, j, p) }
@@ -473,6 +498,7 @@ func (fr *Frame) external(callee *ssa.Function, x *ssa.Call, args []Val, st *Sta
 	case "strings.Contains":
 		c.usedAssumed[full+": existence of the substring"] = true
 		s, p := args[0], args[1]
+		c.tick(st, lAdd(lAdd(s.C[2], p.C[2]), "1"))
 		b := c.declare(c.fresh("has"), "Bool")
 		w := c.declare(c.fresh("wit"), "Int")
 		lastStart := lSub(lAdd(s.C[1], s.C[2]), p.C[2])
@@ -488,6 +514,7 @@ func (fr *Frame) external(callee *ssa.Function, x *ssa.Call, args []Val, st *Sta
 	case "strings.ToUpper", "strings.ToLower":
 		c.usedAssumed[full+": byte-wise ASCII mapping when all bytes < 0x80, unspecified otherwise"] = true
 		s := args[0]
+		c.tick(st, lAdd(s.C[2], "1"))
 		r := fr.freshStr("cased")
 		ascii := qAbs(c, s.C[0], s.C[1], lAdd(s.C[1], s.C[2]), func(j string) string { return "(< " + sSel(s.C[0], j) + " 128)" })
 		upper := full == "strings.ToUpper"
@@ -519,6 +546,8 @@ func (fr *Frame) external(callee *ssa.Function, x *ssa.Call, args []Val, st *Sta
 		}
 		c.assume(sImp("(and (> "+s.C[2]+" 0) (< "+first+" 128))", "(and (> "+r.C[2]+" 0) (= (select "+r.C[0]+" 0) "+m0+"))"))
 		c.assume(sImp(sEq(s.C[2], "0"), sEq(r.C[2], "0")))
+		// case mapping never more than triples the byte length (an invalid byte becomes U+FFFD)
+		c.assume("(<= " + r.C[2] + " (* 3 " + s.C[2] + "))")
 		// a lone byte >= 0x80 is invalid UTF-8 and is mapped to U+FFFD (EF BF BD)
 		c.assume(sImp("(and (= "+s.C[2]+" 1) (>= "+first+" 128))", "(and (= "+r.C[2]+" 3) (= (select "+r.C[0]+" 0) 239) (= (select "+r.C[0]+" 1) 191) (= (select "+r.C[0]+" 2) 189))"))
 		// the result is a function of the argument's content
@@ -530,6 +559,7 @@ func (fr *Frame) external(callee *ssa.Function, x *ssa.Call, args []Val, st *Sta
 		if args[1].Lit == nil || *args[1].Lit != "\x00" || args[2].Lit == nil || *args[2].Lit != "" {
 			c.errorf("%s: ReplaceAll with unsupported arguments", fr.name)
 		}
+		c.tick(st, lAdd(s.C[2], "1"))
 		r := fr.freshStr("nonul")
 		c.assume(sEq(r.C[1], "0"))
 		c.assume("(<= " + r.C[2] + " " + s.C[2] + ")")
@@ -544,6 +574,7 @@ func (fr *Frame) external(callee *ssa.Function, x *ssa.Call, args []Val, st *Sta
 		c.usedAssumed[full+": result is a suffix of the argument"] = true
 		s := args[0]
 		k := c.declare(c.fresh("trim"), "Int")
+		c.tick(st, lAdd(k, "2"))
 		c.assume("(and (<= 0 " + k + ") (<= " + k + " " + s.C[2] + "))")
 		// predicate r <= 32 || r >= 127: skipped bytes are <=32 or >=127; first kept byte is in 33..126
 		c.assume(qAbs(c, s.C[0], s.C[1], lAdd(s.C[1], k), func(j string) string {
@@ -556,6 +587,7 @@ func (fr *Frame) external(callee *ssa.Function, x *ssa.Call, args []Val, st *Sta
 	case "(*strings.Builder).WriteByte":
 		c.usedAssumed["strings.Builder: append-only byte sequence"] = true
 		p := args[0]
+		c.tick(st, "1")
 		cur := fr.load(p, st, reach, x.Pos())
 		nv := fr.freshStr("bld")
 		c.assume(sEq(nv.C[1], "0"))
